@@ -135,13 +135,47 @@ type client struct {
 	cfgMode string // "", "wide" (Min 1.0 / Max 1.3 pre-set), "narrow" (Min = Max = 1.2 pre-set), "reused" (same *Config used by a Firefox_102 UConn before)
 	// afterBuild (optional): what the caller does to the UConn after BuildHandshakeState (hs.Run re-builds afterwards)
 	afterBuild func(*tls.UConn) error
+	// widen (optional): what happens to the caller's *Config (UClient does not clone it) BETWEEN the explicit BuildHandshakeState
+	// and the handshake: "sibling-<parrot>" = another UConn made from the same Config builds that parrot's hello (SetTLSVers writes
+	// the parrot's TLSVersMin/Max into the Config), "min10" = the caller sets MinVersion to TLS 1.0
+	widen string
 }
 
 func (cl client) key() string {
-	if cl.cfgMode == "" {
-		return cl.name
+	k := cl.name
+	if cl.cfgMode != "" {
+		k += "+cfg-" + cl.cfgMode
 	}
-	return cl.name + "+cfg-" + cl.cfgMode
+	if cl.widen != "" {
+		k += "+widen-" + cl.widen
+	}
+	return k
+}
+
+// hooksFor: the AfterBuild callback of one connection (the Config is the one handed to UClient).
+func (cl client) hooksFor(cfg *tls.Config) func(*tls.UConn) error {
+	if cl.widen == "" {
+		return cl.afterBuild
+	}
+	return func(uc *tls.UConn) error {
+		if cl.afterBuild != nil {
+			if err := cl.afterBuild(uc); err != nil {
+				return err
+			}
+		}
+		if cl.widen == "min10" {
+			cfg.MinVersion = tls.VersionTLS10
+			return nil
+		}
+		pr, ok := hs.ParrotByName(strings.TrimPrefix(cl.widen, "sibling-"))
+		if !ok {
+			return fmt.Errorf("unknown sibling %q", cl.widen)
+		}
+		a, b := net.Pipe()
+		defer a.Close()
+		defer b.Close()
+		return tls.UClient(a, cfg, pr.ID).BuildHandshakeState()
+	}
 }
 
 type outcome struct {
@@ -284,7 +318,8 @@ func runOne(p *hs.PKI, cl client, sc scenario, seed int64) *outcome {
 	if cl.mkSpec != nil {
 		spec = cl.mkSpec()
 	}
-	o.res = hs.Run(hs.Opts{ID: cl.id, Spec: spec, ClientCfg: clientConfig(p, cl.cfgMode), ServerCfg: scfg, Script: script, AfterBuild: cl.afterBuild})
+	ccfg := clientConfig(p, cl.cfgMode)
+	o.res = hs.Run(hs.Opts{ID: cl.id, Spec: spec, ClientCfg: ccfg, ServerCfg: scfg, Script: script, AfterBuild: cl.hooksFor(ccfg)})
 	if cl.mkSpec != nil {
 		o.specmin = specMinimum(cl.mkSpec(), o.res.View) // a pristine copy: ApplyPreset rewrote GREASE in the used one
 	} else {
@@ -370,6 +405,32 @@ func run(c *vh.Ctx) {
 				continue
 			}
 			jobs = append(jobs, job{client{name: pr.Name, id: pr.ID}, sc, c.Seed*1000003 + int64(pi)*1009 + int64(si)})
+		}
+	}
+	// HelloGolang through UClient (hello built by crypto/tls), and clients whose shared *Config changes between the explicit
+	// BuildHandshakeState and the handshake
+	golang := client{name: "Golang", id: tls.HelloGolang}
+	widened := []client{golang}
+	for _, wd := range []string{"sibling-Chrome_58", "sibling-Firefox_102", "min10"} {
+		g := golang
+		g.widen = wd
+		widened = append(widened, g)
+	}
+	for _, n := range []string{"Chrome_120", "Firefox_105", "Chrome_58", "Firefox_102"} {
+		if pr, ok := hs.ParrotByName(n); ok {
+			for _, wd := range []string{"sibling-Firefox_102", "min10"} {
+				widened = append(widened, client{name: pr.Name, id: pr.ID, widen: wd})
+			}
+		}
+	}
+	for wi, cl := range widened {
+		for si, sc := range scs {
+			old := strings.HasPrefix(sc.name, "legacy-") || strings.HasPrefix(sc.name, "honest-") || strings.HasPrefix(sc.name, "sv-names-") ||
+				sc.name == "force1.0-canary-none" || sc.name == "force1.1-canary-none" || sc.name == "force1.2-canary-tls12"
+			if quick && cl.id != tls.HelloGolang && !old {
+				continue
+			}
+			jobs = append(jobs, job{cl, sc, c.Seed*1000003 + 333331 + int64(wi)*211 + int64(si)})
 		}
 	}
 	// corpus: the custom specs against every scenario
